@@ -418,6 +418,17 @@ macro_rules! subject_module {
                 Ok(buf)
             }
 
+            /// the cache written from `parent.section(a..b)` (the parent is iterated and asked for its metadata first)
+            pub fn write_cache_section(mapping_bytes: &[u8], a: usize, b: usize) -> Result<Vec<u8>, String> {
+                let parent = ProguardMapping::new(mapping_bytes);
+                let _ = parent.iter().count();
+                let _ = (parent.has_line_info(), parent.is_valid());
+                let sec = parent.section(a..b);
+                let mut buf = Vec::new();
+                ProguardCache::write(&sec, &mut buf).map_err(|e| e.to_string())?;
+                Ok(buf)
+            }
+
             /// Build all three subjects from mapping bytes and hand them to `f`.
             /// Err(String) = the cache could not be written or parsed.
             pub fn with_subjects<R>(
